@@ -15,6 +15,7 @@ import (
 	"sync"
 
 	"github.com/cnotch/ipchub/av/format/mpegts"
+	"github.com/cnotch/ipchub/utils/verifhook"
 )
 
 type segmentFile interface {
@@ -57,6 +58,7 @@ func (mf *memorySegmentFile) close() (err error) {
 }
 
 func (mf *memorySegmentFile) get() (io.Reader, int, error) {
+	verifhook.Point("hls.segment.get", 0) // schedule point: segment found, content not yet read
 	// delete() returns the buffer to segmentPool and the next segment rewrites
 	// its array while an HTTP response may still be reading: hand out a copy
 	// (get is called under the playlist read lock, delete under the write lock).
@@ -115,6 +117,7 @@ func (pf *persistentSegmentFile) close() (err error) {
 }
 
 func (pf *persistentSegmentFile) get() (reader io.Reader, size int, err error) {
+	verifhook.Point("hls.segment.get", 0) // schedule point: segment found, file not yet opened
 	var finfo os.FileInfo
 	finfo, err = os.Stat(pf.path)
 	if err != nil {
